@@ -21,7 +21,7 @@ import (
 )
 
 type Case struct {
-	Elem string    `json:"elem"` // int | pair (compared with the model) | weird (arbitrary comparator, oracle only)
+	Elem string    `json:"elem"` // int | pair (compared with the model) | counted | weird (natural / arbitrary comparator with a call counter, oracle only)
 	Seed int       `json:"seed,omitempty"`
 	Ops  []avlh.Op `json:"ops"`
 }
@@ -179,7 +179,8 @@ func oracle(c *core.Ctx, failed *bool, ts avlh.Trees, h int, step int, op avlh.O
 	checkWalks(c, failed, pre, in, post, ts.Root(h), step, op)
 }
 
-func checkWalks(c *core.Ctx, failed *bool, pre, in, post []int, root any, step int, op avlh.Op) {
+// checkWalks returns the number of levels of the tree, or -1 if its shape could not be established.
+func checkWalks(c *core.Ctx, failed *bool, pre, in, post []int, root any, step int, op avlh.Op) int {
 	fail := func(what, detail string) {
 		if !*failed {
 			*failed = true
@@ -198,13 +199,13 @@ func checkWalks(c *core.Ctx, failed *bool, pre, in, post []int, root any, step i
 		}
 		if !ok {
 			c.Count("oracle_skipped_shape_unknown")
-			return
+			return -1
 		}
 	} else {
 		_, _, o2 := s.walks()
 		if !core.Eq(o2, post) {
 			fail("post-order walk is not the post-order of the tree given by pre-order and in-order", fmt.Sprint(post))
-			return
+			return -1
 		}
 		if r, ok2 := fromReflect(root); ok2 {
 			// the cached height fields, as a statistic only (not part of the property)
@@ -217,7 +218,7 @@ func checkWalks(c *core.Ctx, failed *bool, pre, in, post []int, root any, step i
 	height, n, bad, _ := balanced(s)
 	if bad != "" {
 		fail("tree is not height-balanced", fmt.Sprintf("%s (n=%d, height=%d, pre=%v in=%v)", bad, n, height, clip(pre), clip(in)))
-		return
+		return height + 1
 	}
 	levels := height + 1
 	if float64(levels) > 1.4405*math.Log2(float64(n+2)) {
@@ -226,6 +227,7 @@ func checkWalks(c *core.Ctx, failed *bool, pre, in, post []int, root any, step i
 	if levels > c.Stats["max_levels"] {
 		c.Stats["max_levels"] = levels
 	}
+	return levels
 }
 
 func clip(s []int) []int {
@@ -487,7 +489,7 @@ func isMutating(k string) bool { return k == "Add" || k == "Remove" || k == "Cle
 func exec(c *core.Ctx, cs Case) {
 	c.Begin(cs)
 	c.Count("elem_" + cs.Elem)
-	if cs.Elem == "weird" {
+	if cs.Elem == "weird" || cs.Elem == "counted" {
 		execWeird(c, cs)
 		return
 	}
@@ -583,24 +585,38 @@ func classify(c *core.Ctx, m *mirror, maxSize int, dup bool) {
 	}
 }
 
-// execWeird: one tree with an arbitrary comparator; implementation + oracle only.
+// execWeird: one tree built here with a call-counting comparator — the natural
+// order ("counted") or an arbitrary function ("weird"); implementation + oracle
+// only. Besides balance and depth it checks the cost consequence: Contains, Add
+// and Remove call the comparator at most once per level of the tree they start
+// from, hence at most 1.4405*log2(n+2) times.
 func execWeird(c *core.Ctx, cs Case) {
-	cmp := weirdCompare(cs.Seed)
+	base := intCompare
+	if cs.Elem == "weird" {
+		base = weirdCompare(cs.Seed)
+	}
+	calls := 0
+	cmp := func(a, b int) int { calls++; return base(a, b) }
 	t := avl.New(cmp)
-	m := newMirror(cmp)
+	m := newMirror(base)
 	failed := false
 	maxSize := 0
+	levels := 0 // of the current tree; -1 = unknown
 	for i, o := range cs.Ops {
 		if o.H != 0 {
 			continue
 		}
 		o := o
+		calls = 0
+		n := t.Len()
 		kind := core.Try(func() {
 			switch o.K {
 			case "Add":
 				t.Add(o.V)
 			case "Remove":
 				t.Remove(o.V)
+			case "Contains":
+				t.Contains(o.V)
 			case "Clear":
 				t.Clear()
 			}
@@ -609,27 +625,42 @@ func execWeird(c *core.Ctx, cs Case) {
 		if kind != "" {
 			if !failed {
 				failed = true
-				c.Fail("panic", fmt.Sprintf("op #%d (%s v=%d) panicked: %s (arbitrary comparator seed %d)", i, o.K, o.V, kind, cs.Seed))
+				c.Fail("panic", fmt.Sprintf("op #%d (%s v=%d) panicked: %s (comparator %s seed %d)", i, o.K, o.V, kind, cs.Elem, cs.Seed))
 			}
 			continue
 		}
-		if o.K != "Clone" {
-			m.exec(o)
-		}
-		if m.sizes[0] > maxSize {
-			maxSize = m.sizes[0]
+		if levels >= 0 && (o.K == "Add" || o.K == "Remove" || o.K == "Contains") {
+			c.Count("cost_checked")
+			if calls > c.Stats["max_comparator_calls"] {
+				c.Stats["max_comparator_calls"] = calls
+			}
+			what := ""
+			switch {
+			case float64(calls) > 1.4405*math.Log2(float64(n+2)):
+				what = "more comparator calls than 1.4405*log2(n+2)"
+			case calls > levels:
+				what = "more comparator calls than levels of the tree (theorem C02_cost allows one per level)"
+			}
+			if what != "" && !failed {
+				failed = true
+				c.Fail(what, fmt.Sprintf("op #%d (%s v=%d) made %d comparator calls on a tree of %d nodes and %d levels", i, o.K, o.V, calls, n, levels))
+			}
 		}
 		if !isMutating(o.K) || o.K == "Clone" {
 			continue
+		}
+		m.exec(o)
+		if m.sizes[0] > maxSize {
+			maxSize = m.sizes[0]
 		}
 		var pre, in, post []int
 		t.WalkPreOrder(func(v int) { pre = append(pre, v) })
 		t.WalkInOrder(func(v int) { in = append(in, v) })
 		t.WalkPostOrder(func(v int) { post = append(post, v) })
-		checkWalks(c, &failed, pre, in, post, &t, i, o)
+		levels = checkWalks(c, &failed, pre, in, post, &t, i, o)
 	}
 	classify(c, m, maxSize, false)
-	if failed {
+	if failed && cs.Elem == "weird" {
 		// the same operations under the natural order, as a case of its own (compared with the model too)
 		exec(c, Case{Elem: "int", Ops: cs.Ops})
 	}
@@ -708,7 +739,7 @@ func run(c *core.Ctx) {
 	c.Note(fmt.Sprintf("exhaustive: all insertion orders of n distinct keys, n in 0..%d, each observed after every Add, then (rebuilt) followed by every single deletion; plus random and structured histories", maxN))
 
 	// 2. small random histories, observed after every mutation (duplicates frequent)
-	for i := c.N(500, 12000, 4000); i > 0; i-- {
+	for i := c.N(500, 12000, 3000); i > 0; i-- {
 		g := newGen(c)
 		keys := r.Range(1, 14)
 		nops := r.Range(3, 40)
@@ -719,7 +750,7 @@ func run(c *core.Ctx) {
 	}
 
 	// 3. medium histories: grow, churn, shrink; observations every few operations
-	for i := c.N(160, 3000, 1500); i > 0; i-- {
+	for i := c.N(160, 3000, 700); i > 0; i-- {
 		g := newGen(c)
 		keys := r.Range(20, 400)
 		if r.Chance(15) {
@@ -745,7 +776,7 @@ func run(c *core.Ctx) {
 	}
 
 	// 4. large structured trees: sorted, reverse, organ-pipe, random; then delete-min-heavy / delete-root-heavy
-	big := c.N(7, 40, 20)
+	big := c.N(7, 40, 10)
 	for i := 0; i < big; i++ {
 		g := newGen(c)
 		n := r.Range(600, 1400)
@@ -823,16 +854,22 @@ func run(c *core.Ctx) {
 		exec(c, Case{Elem: pick(r), Ops: g.ops})
 	}
 
-	// 6. arbitrary comparator (balance must not depend on the order being an order): oracle only
-	for i := c.N(150, 3000, 2000); i > 0; i-- {
+	// 6. call-counting comparator, natural order or arbitrary (balance must not depend on the order being an order): oracle only
+	for i := c.N(240, 4000, 2000); i > 0; i-- {
 		g := newGen(c)
-		seed := r.Intn(1 << 30)
-		g.m = newMirror(weirdCompare(seed))
+		cs := Case{Elem: "counted"}
+		if r.Chance(60) {
+			cs.Elem = "weird"
+			cs.Seed = r.Intn(1 << 30)
+			g.m = newMirror(weirdCompare(cs.Seed))
+		}
 		keys := r.Range(2, 200)
 		for k := r.Range(5, 300); k > 0; k-- {
 			switch x := r.Intn(100); {
-			case x < 60:
+			case x < 55:
 				g.op("Add", 0, r.Intn(keys))
+			case x < 70:
+				g.op("Contains", 0, r.Intn(keys))
 			case x < 99:
 				if v, ok := g.m.randomPresent(0, r); ok && r.Chance(80) {
 					g.op("Remove", 0, v)
@@ -843,7 +880,8 @@ func run(c *core.Ctx) {
 				g.op("Clear", 0, 0)
 			}
 		}
-		exec(c, Case{Elem: "weird", Seed: seed, Ops: g.ops})
+		cs.Ops = g.ops
+		exec(c, cs)
 	}
 }
 
